@@ -639,3 +639,233 @@ Proof.
   pose proof (lookup_repeat_once w o st names kw r st1 Hsd Hc H Hr) as H1.
   induction k as [|k IH]; [reflexivity|]. cbn [again repeat]. rewrite H1. f_equal. exact IH.
 Qed.
+
+(* ================================================================== lookup = policy for any names *)
+Lemma first_over_override st wanted : forall ns,
+  first_over st ns wanted = option_map (vetd wanted) (first_override st ns).
+Proof.
+  induction ns as [|n r IH]; [reflexivity|]. cbn [first_over first_override].
+  destruct (assoc n (s_over st)) as [[d e]|]; [reflexivity|exact IH].
+Qed.
+
+Lemma fst_finA h wanted required d st : fst (finA h required (vetd wanted d) st) = vet wanted required d.
+Proof.
+  rewrite vet_vetd. destruct (vetd wanted d); cbn; [destruct required; reflexivity|reflexivity].
+Qed.
+
+Lemma gsd_offerN w h st s var wanted :
+  cache_covered st -> get_subproject st s = true ->
+  get_subproject_dep w h st s var wanted = Some (vetd wanted (sub_offerN w st s var (h_names h))).
+Proof.
+  intros Hc Hs. unfold get_subproject_dep, sub_offerN, var_offer. rewrite Hs. cbn [negb].
+  rewrite (first_cached_over h st wanted Hc), first_over_override.
+  destruct (first_override st (h_names h)) as [d|]; [reflexivity|]. cbn [option_map].
+  destruct (if truthy var then var else first_varname w s (h_names h)) as [[|c vn]|]; try reflexivity.
+  destruct (assoc s (w_subs w)) as [sd|]; [|reflexivity].
+  destruct (assoc (c :: vn) (sd_vars sd)) as [[[|k v]|]|]; try reflexivity.
+  cbn. destruct (check_version wanted v); reflexivity.
+Qed.
+
+Lemma first_sys_system w wanted : forall ns,
+  first_system w ns wanted = match first_sys w ns wanted with Some (n, v) => Some (Found KSystem v) | None => None end.
+Proof.
+  induction ns as [|n r IH]; [reflexivity|]. cbn [first_system first_sys]. unfold system_dep.
+  destruct (assoc n (w_sys w)) as [v|]; [destruct (sys_check wanted v); [reflexivity|]|]; exact IH.
+Qed.
+
+Lemma fst_sub_phase w h wanted required s st :
+  cache_covered st ->
+  fst (sub_phase w h wanted required s st) =
+  if negb (h_force h) && h_nofb h then fail required
+  else use_subprojectN w st s (h_spvar h) (h_names h) wanted required.
+Proof.
+  intros Hc. unfold sub_phase, use_subprojectN. destruct (negb (h_force h) && h_nofb h); [reflexivity|].
+  destruct (do_subproject w st s required) as [st'|] eqn:Ed; [|reflexivity].
+  pose proof (do_subproject_covered _ _ _ _ _ Ed Hc) as Hc'.
+  destruct (get_subproject st' s) eqn:Eg.
+  - rewrite (gsd_offerN w h st' s (h_spvar h) wanted Hc' Eg). apply fst_finA.
+  - rewrite (gsd_notfound_none w h st' s (h_spvar h) wanted Eg). reflexivity.
+Qed.
+
+(* the closed form of the loop, read as the policy *)
+Lemma loop_policy_sub w h wanted required st c s' :
+  cache_covered st -> h_spname h = Some (c :: s') ->
+  fst (loop w h wanted required st) =
+  match first_override st (h_names h) with
+  | Some d => vet wanted required d
+  | None =>
+      if get_subproject st (c :: s') then vet wanted required (var_offer w (c :: s') (h_spvar h) (h_names h))
+      else if h_force h then use_subprojectN w st (c :: s') (h_spvar h) (h_names h) wanted required
+      else match first_system w (h_names h) wanted with
+           | Some d => OFound d
+           | None => if h_nofb h then fail required
+                     else use_subprojectN w st (c :: s') (h_spvar h) (h_names h) wanted required
+           end
+  end.
+Proof.
+  intros Hc Hsp. unfold loop. rewrite (first_cached_over h st wanted Hc), first_over_override, Hsp.
+  destruct (first_override st (h_names h)) as [d|] eqn:Efo; cbn [option_map]; [apply fst_finA|].
+  destruct (get_subproject st (c :: s')) eqn:Eg.
+  - rewrite (gsd_offerN w h st (c :: s') (h_spvar h) wanted Hc Eg). unfold sub_offerN. rewrite Efo. apply fst_finA.
+  - pose proof (fst_sub_phase w h wanted required (c :: s') st Hc) as Hsp2.
+    destruct (h_force h) eqn:Ef; cbn [negb andb] in Hsp2; [exact Hsp2|].
+    rewrite first_sys_system. destruct (first_sys w (h_names h) wanted) as [[n v]|]; [reflexivity|exact Hsp2].
+Qed.
+
+Lemma loop_policy_nosub w h wanted required st :
+  cache_covered st -> h_spname h = None -> h_names h <> [] ->
+  fst (loop w h wanted required st) =
+  match first_override st (h_names h) with
+  | Some d => vet wanted required d
+  | None => match first_system w (h_names h) wanted with Some d => OFound d | None => fail required end
+  end.
+Proof.
+  intros Hc Hsp Hne. unfold loop. rewrite (first_cached_over h st wanted Hc), first_over_override, Hsp.
+  destruct (first_override st (h_names h)) as [d|]; cbn [option_map]; [apply fst_finA|].
+  rewrite first_sys_system. destruct (first_sys w (h_names h) wanted) as [[n v]|]; [reflexivity|].
+  destruct (h_names h); [congruence|reflexivity].
+Qed.
+
+Lemma ip_spec w o st allow req : forall ns force,
+  implicit_provider w o st allow req force ns =
+  match provider_of w ns with
+  | Some (s, var) =>
+      let f' := force || str_mem s (o_fff o) in
+      if f' || (match allow with Some true => true | _ => false end) || req || get_subproject st s
+      then (f', Some (s, var)) else (f', None)
+  | None => (force, None)
+  end.
+Proof.
+  induction ns as [|n r IH]; intros force; [reflexivity|]. cbn [implicit_provider provider_of].
+  destruct (find_dep_provider w n) as [[[|c s] var]|]; try apply IH. reflexivity.
+Qed.
+
+Lemma provider_nonempty w : forall l v, provider_of w l = Some ([], v) -> False.
+Proof.
+  induction l as [|n r IH]; intros v; cbn; [discriminate|].
+  destruct (find_dep_provider w n) as [[[|c s0] v0]|]; try apply IH. discriminate.
+Qed.
+
+(* dependency() with any number of names = the documented policy *)
+Theorem lookup_is_policyN w o st names kw :
+  cache_covered st -> fallback_named kw ->
+  fst (lookup w o st names kw) = policyN w o st names kw.
+Proof.
+  intros Hc Hf. rewrite lookup_pre. unfold pre, policyN, fallback_ofN, fallback_named in *.
+  set (ns := filter (fun n : list char => negb (is_nil n)) names).
+  destruct (negb (names_ok [] ns)); [reflexivity|].
+  destruct kw as [required wanted allow fb]. cbn [k_required k_version k_allow k_fallback] in *.
+  assert (Hnosub : forall al var force nofb,
+     fst (let h := mkHolder ns al None var force nofb in
+          if is_nil (candidates h) && required then (OErr, st)
+          else try_cands w h wanted required (candidates h) st) =
+     match first_override st ns with
+     | Some d => vet wanted required d
+     | None => match first_system w ns wanted with Some d => OFound d | None => fail required end
+     end).
+  { intros al var force nofb. cbv zeta. destruct (nil_or_not ns) as [En|Hne].
+    - rewrite En. unfold candidates. cbn [h_names h_spname truthy map app negb]. rewrite orb_true_r. cbn. destruct required; reflexivity.
+    - rewrite cands_nonempty by exact Hne. cbn [andb]. rewrite loop_eq.
+      apply loop_policy_nosub; [exact Hc|reflexivity|exact Hne]. }
+  assert (Hsub : forall al c s' var force nofb,
+     fst (let h := mkHolder ns al (Some (c :: s')) var force nofb in
+          if is_nil (candidates h) && required then (OErr, st)
+          else try_cands w h wanted required (candidates h) st) =
+     match first_override st ns with
+     | Some d => vet wanted required d
+     | None =>
+         if get_subproject st (c :: s') then vet wanted required (var_offer w (c :: s') var ns)
+         else if force then use_subprojectN w st (c :: s') var ns wanted required
+         else match first_system w ns wanted with
+              | Some d => OFound d
+              | None => if nofb then fail required else use_subprojectN w st (c :: s') var ns wanted required
+              end
+     end).
+  { intros al c s' var force nofb. cbv zeta.
+    assert (E : is_nil (candidates (mkHolder ns al (Some (c :: s')) var force nofb)) = false).
+    { unfold candidates. cbn [h_names h_spname truthy]. apply is_nil_app_r.
+      intros X. apply app_eq_nil in X. destruct X as [X _]. discriminate. }
+    rewrite E. cbn [andb]. rewrite loop_eq.
+    apply (loop_policy_sub w (mkHolder ns al (Some (c :: s')) var force nofb) wanted required st c s' Hc eq_refl). }
+  destruct fb as [l|].
+  - destruct allow as [a|]; cbn [is_some]; [reflexivity|].
+    destruct l as [|s [|v [|x r]]]; try reflexivity.
+    + cbn [truthy negb andb]. cbv iota beta. apply Hnosub.
+    + destruct s as [|c s']; [contradiction|]. cbn [truthy negb andb]. cbv iota beta.
+      rewrite Hsub. unfold forcedN. reflexivity.
+    + destruct s as [|c s']; [contradiction|]. cbn [truthy negb andb]. cbv iota beta.
+      rewrite Hsub. unfold forcedN. reflexivity.
+  - cbn [truthy negb andb]. rewrite orb_false_r.
+    destruct allow as [[|]|]; cbn [negb].
+    + rewrite ip_spec. destruct (provider_of w ns) as [[s var]|] eqn:Ep; cbv beta iota zeta; [|apply Hnosub].
+      unfold forcedN. rewrite orb_true_r. cbn [orb]. cbv beta iota.
+      destruct s as [|c s']; [exfalso; exact (provider_nonempty w _ _ Ep)|].
+      rewrite Hsub. reflexivity.
+    + cbv beta iota zeta. apply Hnosub.
+    + rewrite ip_spec. destruct (provider_of w ns) as [[s var]|] eqn:Ep; cbv beta iota zeta; [|apply Hnosub].
+      unfold forcedN. rewrite orb_false_r.
+      destruct s as [|c s']; [exfalso; exact (provider_nonempty w _ _ Ep)|].
+      destruct (is_forcefallback (o_wrap_mode o) || existsb (fun n : str => str_mem n (o_fff o)) ns
+                || str_mem (c :: s') (o_fff o) || required || get_subproject st (c :: s')); cbv beta iota.
+      * rewrite Hsub. reflexivity.
+      * apply Hnosub.
+Qed.
+
+Theorem lookup_follows_policyN w o st names kw :
+  reach w o st -> fallback_named kw ->
+  fst (lookup w o st names kw) = policyN w o st names kw.
+Proof. intros Hr Hf. apply lookup_is_policyN; [eapply reach_covered; eauto|exact Hf]. Qed.
+
+(* "Once one of the names has been found, all other names are added into the cache":
+   after a successful lookup every name of the call has an override, so later lookups of
+   any of them are answered from the overrides (policy step 1). *)
+Lemma finA_found_all h required d st d' st1 :
+  finA h required d st = (OFound d', st1) -> forall n, In n (h_names h) -> assoc n (s_over st1) <> None.
+Proof.
+  destruct d as [|k v]; cbn [finA]; [destruct required; discriminate|].
+  intros H n Hn. inversion H; subst. cbn [s_over]. apply register_covers. exact Hn.
+Qed.
+
+Lemma loop_found_all w h wanted required st d st1 :
+  loop w h wanted required st = (OFound d, st1) ->
+  forall n, In n (h_names h) -> assoc n (s_over st1) <> None.
+Proof.
+  unfold loop. intros H.
+  destruct (first_cached h st (h_names h) wanted) as [x|]; [eapply finA_found_all; eauto|].
+  assert (Hsys : forall q, match first_sys w (h_names h) wanted with
+                           | Some (n, v) => sys_found h n v st | None => q end = (OFound d, st1) ->
+                 (q = (OFound d, st1) -> forall n, In n (h_names h) -> assoc n (s_over st1) <> None) ->
+                 forall n, In n (h_names h) -> assoc n (s_over st1) <> None).
+  { intros q Hq Hk. destruct (first_sys w (h_names h) wanted) as [[n v]|]; [|auto].
+    unfold sys_found in Hq. inversion Hq; subst. intros m Hm. cbn [s_over]. apply register_covers. exact Hm. }
+  assert (Hsub : forall s, sub_phase w h wanted required s st = (OFound d, st1) ->
+                 forall n, In n (h_names h) -> assoc n (s_over st1) <> None).
+  { intros s Hp. unfold sub_phase in Hp.
+    destruct (negb (h_force h) && h_nofb h); [destruct required; discriminate|].
+    destruct (do_subproject w st s required) as [st'|]; [|discriminate].
+    destruct (get_subproject_dep w h st' s (h_spvar h) wanted) as [x|]; [eapply finA_found_all; eauto|].
+    destruct required; discriminate. }
+  destruct (h_spname h) as [[|c s']|].
+  - apply (Hsys _ H). intros Hq. destruct (h_names h); [discriminate|destruct required; discriminate].
+  - destruct (if get_subproject st (c :: s') then get_subproject_dep w h st (c :: s') (h_spvar h) wanted else None) as [x|].
+    + eapply finA_found_all; eauto.
+    + destruct (h_force h); [apply (Hsub _ H)|]. apply (Hsys _ H). apply Hsub.
+  - apply (Hsys _ H). intros Hq. destruct (h_names h); [discriminate|destruct required; discriminate].
+Qed.
+
+Theorem found_names_all_overridden w o st names kw d st1 :
+  lookup w o st names kw = (OFound d, st1) ->
+  forall n, In n names -> n <> [] -> assoc n (s_over st1) <> None.
+Proof.
+  intros H n Hin Hne. rewrite lookup_pre in H.
+  destruct (pre w o st names kw) as [h|] eqn:Ep; [|discriminate].
+  destruct (is_nil (candidates h) && k_required kw); [discriminate|].
+  rewrite loop_eq in H. apply (loop_found_all _ _ _ _ _ _ _ H).
+  assert (Hn : h_names h = filter (fun x : list char => negb (is_nil x)) names).
+  { unfold pre in Ep.
+    destruct (negb (names_ok [] (filter (fun n : list char => negb (is_nil n)) names))); [discriminate|].
+    repeat match type of Ep with
+           | context [match ?x with _ => _ end] => destruct x; try discriminate
+           end; inversion Ep; reflexivity. }
+  rewrite Hn. apply filter_In. split; [exact Hin|]. destruct n; [congruence|reflexivity].
+Qed.
